@@ -11,6 +11,11 @@ for d in sorted(glob.glob(os.path.join(ROOT, 'seeded', '*'))):
     except Exception:
         continue
     seeded.setdefault(m.get('property_id', os.path.basename(d)[:3]), []).append(os.path.basename(d))
+import sys, re, io
+_out = io.StringIO()
+_print = print
+def print(*a):
+    _print(*a, file=_out)
 print('| id | level | theorems (discharged/listed) | quick cases (IMPL~MODEL / IMPL~ORACLE) | open known findings | repaired by fix: commits | seeded changes |')
 print('|---|---|---|---|---|---|---|')
 for c in man['checks']:
@@ -25,3 +30,30 @@ for c in man['checks']:
     openk = [e['id'] for e in kf if e.get('property') == pid and 'fixed' not in e]
     fixed = [e for e in kf if e.get('property') == pid and 'fixed' in e]
     print('| %s | %s | %s | %s | %s | %d | %s |' % (pid, c['level_claimed']['category'], th, cs, ', '.join(openk) or '–', len(fixed), ', '.join(seeded.get(pid, [])) or '–'))
+
+status = _out.getvalue()
+_out = io.StringIO()
+print('Repaired in /repo (%d `fix:` commits):' % len([e for e in kf if 'fixed' in e]))
+print()
+print('| property | commit | subject | what failed |')
+print('|---|---|---|---|')
+for e in kf:
+    if 'fixed' in e:
+        what = re.sub(r'^property=\S+ \S+ ', '', e['fixed']).replace('|', '/')
+        print('| %s | %s | %s | %s |' % (e.get('property', '?'), e.get('commit', '?'), e.get('subject', '').replace('|', '/'), what[:400]))
+print()
+print('Open known findings (%d):' % len([e for e in kf if 'fixed' not in e]))
+print()
+print('| property | id | call site | input class | witness |')
+print('|---|---|---|---|---|')
+for e in kf:
+    if 'fixed' not in e:
+        print('| %s | %s | %s | %s | `%s` |' % (e.get('property'), e.get('id'), str(e.get('call_site', '')).replace('|', '/')[:160], str(e.get('class', '')).replace('|', '/')[:420], str(e.get('witness', '')).replace('|', '/')[:160]))
+findings = _out.getvalue()
+if '--write' in sys.argv:
+    p = os.path.join(ROOT, 'DESIGN.md'); d = open(p).read()
+    d = re.sub(r'(<!-- STATUS-BEGIN -->\n).*?(<!-- STATUS-END -->)', lambda m: m.group(1) + status + m.group(2), d, flags=re.S)
+    d = re.sub(r'(<!-- FINDINGS-BEGIN -->\n).*?(<!-- FINDINGS-END -->)', lambda m: m.group(1) + findings + m.group(2), d, flags=re.S)
+    open(p, 'w').write(d)
+else:
+    _print(status); _print(findings)
